@@ -172,9 +172,17 @@ impl ChunkData {
         1 + self.data.len()
     }
 
-    /// Get the decompressed size if known
+    /// Get the decompressed size
+    ///
+    /// For a pre-compressed chunk created without a size (`from_compressed(..,
+    /// None)`) the chunk is decoded to find out, so that the chunk table built
+    /// from it records the real decoded length; a chunk that cannot be decoded
+    /// here (encrypted) reports the length of its stored data.
     pub fn decompressed_size(&self) -> usize {
-        self.decompressed_size.unwrap_or(self.data.len())
+        self.decompressed_size.unwrap_or_else(|| {
+            self.decompress(0)
+                .map_or(self.data.len(), |decoded| decoded.len())
+        })
     }
 
     /// Decompress the chunk data
